@@ -111,18 +111,19 @@ def finish(ctx, explanation, undecided, seed=0):
     for f in ctx.floors:
         print("floor %-27s %s: found=%d expected>=%d [%s]" % (f["rule"], f["what"], f["found"], f["expected"], f["config"]))
     code = 0
-    os.makedirs(os.path.join(VERIF, "replay"), exist_ok=True)
+    REPLAY = os.path.join(VERIF, "replay" if not os.environ.get("VERIF_NO_EVIDENCE") else ".cache/replay-scratch")
+    os.makedirs(REPLAY, exist_ok=True)
     for a in ctx.anchor_lost:
         print("ANCHOR-LOST property=%s rule=%s config=%s :: %s" % (prop, a["rule"], a["config"], a["msg"]))
     if ctx.anchor_lost:
-        rp = os.path.join(VERIF, "replay", "%s-anchor.json" % prop)
+        rp = os.path.join(REPLAY, "%s-anchor.json" % prop)
         with open(rp, "w") as fh:
             json.dump({"property": prop, "anchor_lost": ctx.anchor_lost}, fh, indent=1)
         print("VIOLATION property=%s replay=%s" % (prop, rp))
         code = 1
     for i, (k, vs) in enumerate(new):
         v = vs[0]
-        rp = os.path.join(VERIF, "replay", "%s-%d.json" % (prop, i))
+        rp = os.path.join(REPLAY, "%s-%d.json" % (prop, i))
         with open(rp, "w") as fh:
             json.dump({"property": prop, "rule": k[1], "function": k[2], "instance": k[3],
                        "configs": sorted({x["config"] for x in vs}),
@@ -178,9 +179,10 @@ def finish(ctx, explanation, undecided, seed=0):
         "violations": len(new) + (1 if ctx.anchor_lost else 0),
     }
     ev["coverage"].update(ctx.extra)
-    os.makedirs(os.path.join(VERIF, "evidence"), exist_ok=True)
-    with open(os.path.join(VERIF, "evidence", "%s.json" % prop), "w") as fh:
-        json.dump(ev, fh, indent=1, default=str)
+    if not os.environ.get("VERIF_NO_EVIDENCE"):
+        os.makedirs(os.path.join(VERIF, "evidence"), exist_ok=True)
+        with open(os.path.join(VERIF, "evidence", "%s.json" % prop), "w") as fh:
+            json.dump(ev, fh, indent=1, default=str)
     print("%s property=%s tier=%s obligations=%d discharged=%d known=%d new=%d anchor_lost=%d wall=%.1fs" % (
         "PASS" if code == 0 else "FAIL", prop, ctx.tier, n_ob, n_ok, len(printed_known), len(new),
         len(ctx.anchor_lost), time.time() - ctx.t0))
